@@ -629,3 +629,229 @@ func c23NaturalLoops(fn *ssa.Function) map[*ssa.BasicBlock]map[*ssa.BasicBlock]b
 	}
 	return out
 }
+
+// ---------------------------------------------------------------------------
+// Lifting an edge predicate through flag variables and helper functions.
+//
+// c23Lifter decides "cond == pol implies the fact established by base" for
+// conditions that are (a) accepted by base directly, (b) boolean flag variables
+// (Phi, `a && b` results) every `pol` edge of which is established (see
+// c23FlagImplies), (c) calls of functions that have a body in the loaded
+// program and a single boolean result, each of whose returns that can carry
+// `pol` is the fact itself or lies behind an edge establishing it, or (d)
+// `f(x) != nil` / `f(x) == nil` for such a function with one nilable result,
+// each of whose non-nil (nil) returns lies behind an edge establishing it.
+// (c) and (d) make "extract the test into a helper" and "inline the helper"
+// indistinguishable.
+//
+// Opaque says that a value may establish the fact in a way that cannot be
+// inspected (default: the result of a call without a body in the loaded
+// program); with Depth > 0 a comparison one of whose operands is opaque is opaque
+// too.  A helper that fails only because of such values is recorded in Unsure, so that callers can report "undecided" rather than a violation.
+type c23Lifter struct {
+	base     EdgePred
+	Opaque   func(v ssa.Value) bool
+	Depth    int                // how far Opaque looks into comparison operands / phi edges (0: the value itself)
+	memo     map[c23LiftKey]int // 1 = in progress, 2 = implies, 3 = does not
+	Rejected map[string]string  // helper (fnName) -> why its result does not imply the fact
+	Unsure   map[string]bool    // helpers whose rejection involves an opaque value
+}
+
+type c23LiftKey struct {
+	fn   *ssa.Function
+	want int // 0/1: boolean result false/true; 2/3: result nil/non-nil
+}
+
+func c23NewLifter(base EdgePred) *c23Lifter {
+	return &c23Lifter{base: base, Opaque: c23BodylessCall, memo: map[c23LiftKey]int{}, Rejected: map[string]string{}, Unsure: map[string]bool{}}
+}
+
+// Pred is the lifted edge predicate.
+func (l *c23Lifter) Pred(cond ssa.Value, pol bool) bool {
+	return c23FlagImplies(cond, pol, l.direct)
+}
+
+// PredOrOpaque additionally accepts edges whose condition is opaque.
+func (l *c23Lifter) PredOrOpaque(cond ssa.Value, pol bool) bool {
+	return l.Pred(cond, pol) || l.opaqueVal(cond, l.Depth)
+}
+
+func (l *c23Lifter) opaqueVal(v ssa.Value, depth int) bool {
+	v, _ = stripNot(v, true)
+	if l.Opaque != nil && l.Opaque(v) {
+		return true
+	}
+	if depth == 0 {
+		return false
+	}
+	switch x := v.(type) {
+	case *ssa.BinOp:
+		return l.opaqueVal(x.X, depth-1) || l.opaqueVal(x.Y, depth-1)
+	case *ssa.Phi:
+		for _, e := range x.Edges {
+			if l.opaqueVal(e, depth-1) {
+				return true
+			}
+		}
+	}
+	return false
+}
+
+func c23HasBody(call *ssa.Call) *ssa.Function {
+	callee := calleeFn(call.Common())
+	if callee == nil || callee.Blocks == nil {
+		return nil
+	}
+	return callee
+}
+
+func (l *c23Lifter) direct(cond ssa.Value, pol bool) bool {
+	if l.base(cond, pol) {
+		return true
+	}
+	switch x := cond.(type) {
+	case *ssa.Call:
+		if callee := c23HasBody(x); callee != nil && c23BoolResult(callee) {
+			w := 0
+			if pol {
+				w = 1
+			}
+			return l.funcImplies(callee, w)
+		}
+	case *ssa.BinOp:
+		if x.Op != token.EQL && x.Op != token.NEQ {
+			return false
+		}
+		var other ssa.Value
+		switch {
+		case isNilConst(x.Y):
+			other = x.X
+		case isNilConst(x.X):
+			other = x.Y
+		default:
+			return false
+		}
+		call, ok := other.(*ssa.Call)
+		if !ok {
+			return false
+		}
+		callee := c23HasBody(call)
+		if callee == nil || callee.Signature.Results().Len() != 1 {
+			return false
+		}
+		w := 2
+		if (x.Op == token.NEQ) == pol {
+			w = 3
+		}
+		return l.funcImplies(callee, w)
+	}
+	return false
+}
+
+// c23BoolResult: fn returns exactly one boolean.
+func c23BoolResult(fn *ssa.Function) bool {
+	res := fn.Signature.Results()
+	if res.Len() != 1 {
+		return false
+	}
+	b, ok := res.At(0).Type().Underlying().(*types.Basic)
+	return ok && b.Info()&types.IsBoolean != 0
+}
+
+// funcImplies: fn's single result having the value class `want` implies the fact.
+func (l *c23Lifter) funcImplies(fn *ssa.Function, want int) bool {
+	k := c23LiftKey{fn, want}
+	switch l.memo[k] {
+	case 1, 3:
+		return false // recursion is not evidence
+	case 2:
+		return true
+	}
+	l.memo[k] = 1
+	ok := true
+	name := fnName(fn)
+	reject := func(r *ssa.Return, why string) {
+		ok = false
+		l.Rejected[name] = why
+		if l.opaqueVal(r.Results[0], l.Depth) || guardedCut(r, l.PredOrOpaque) {
+			l.Unsure[name] = true
+		}
+	}
+	for _, r := range returnsOf(fn) {
+		if len(r.Results) != 1 || isPanicBlock(r.Block()) {
+			continue
+		}
+		res := r.Results[0]
+		if want >= 2 { // nil / non-nil
+			if isNilConst(res) {
+				if want == 2 && !guardedCut(r, l.Pred) {
+					reject(r, "returns nil on a path that does not establish it")
+				}
+				continue
+			}
+			// any other value may be non-nil (and, unless freshly built, nil)
+			if want == 2 {
+				switch res.(type) {
+				case *ssa.Alloc, *ssa.MakeInterface, *ssa.IndexAddr, *ssa.FieldAddr:
+					continue // never nil
+				}
+			}
+			if !guardedCut(r, l.Pred) {
+				reject(r, "returns "+pathN(res, 4)+" on a path that does not establish it")
+			}
+			continue
+		}
+		if cv, isConst := constOf(res); isConst && cv.Kind() == constant.Bool {
+			if constant.BoolVal(cv) != (want == 1) {
+				continue
+			}
+			if !guardedCut(r, l.Pred) {
+				reject(r, "returns the constant "+cv.String()+" on a path that does not establish it")
+			}
+			continue
+		}
+		if l.Pred(res, want == 1) || guardedCut(r, l.Pred) {
+			continue
+		}
+		reject(r, "returns ("+pathN(res, 4)+"), which does not establish it")
+	}
+	if ok {
+		l.memo[k] = 2
+	} else {
+		l.memo[k] = 3
+	}
+	return ok
+}
+
+// c23BodylessCall: v is the result of a call that has no body in the loaded
+// program (interface method, function value, dependency), other than a builtin.
+func c23BodylessCall(v ssa.Value) bool {
+	if ex, ok := v.(*ssa.Extract); ok {
+		v = ex.Tuple
+	}
+	call, ok := v.(*ssa.Call)
+	if !ok {
+		return false
+	}
+	if _, builtin := call.Call.Value.(*ssa.Builtin); builtin {
+		return false
+	}
+	return c23HasBody(call) == nil
+}
+
+// c23OriginCalls: every leaf of the backward walk from v is a call accepted by
+// match (and there is at least one), or a leaf accepted by other.
+func c23OriginCalls(v ssa.Value, match func(*ssa.Call) bool, other func(ssa.Value) bool) bool {
+	n, ok := 0, true
+	c23Back(v, nil, func(leaf ssa.Value) {
+		n++
+		if call, isCall := leaf.(*ssa.Call); isCall && match(call) {
+			return
+		}
+		if other != nil && other(leaf) {
+			return
+		}
+		ok = false
+	})
+	return ok && n > 0
+}
